@@ -1,5 +1,6 @@
 import PbVerif.Driver.Util
 import PbVerif.Model.MsgDet
+import PbVerif.Model.MsgOps
 /-
 `pbmodel_msg`: line protocol for the message model.
 
@@ -145,6 +146,46 @@ def msgStep (S : Schema) : List String → Schema × String
           | .ok m => "ok " ++ sMsg S mi m
           | .error e => sErr e)
     | _, _, _, _ => (S, "bad-op")
+  | "op" :: mi :: opname :: ts =>
+    -- op <mi> <name> <args…> MSG   (the message is always last)
+    match mi.toNat? with
+    | none => (S, "bad-op")
+    | some mi =>
+      let d := S.msg mi
+      let fin (op : Option Op) (rest : List String) : String :=
+        match op, pMsg rest with
+        | some op, some (m, []) => sMsg S mi (step d m op)
+        | _, _ => "bad-op"
+      let r : String := match opname, ts with
+        | "set", num :: rest => (match num.toNat?, pVal rest with
+            | some n, some (v, rest') => fin (some (.set n v)) rest'
+            | _, _ => "bad-op")
+        | "clear", num :: rest => fin (num.toNat?.map .clear) rest
+        | "mutable", num :: rest => fin (num.toNat?.map .mutable) rest
+        | "append", num :: rest => (match num.toNat?, pVal rest with
+            | some n, some (v, rest') => fin (some (.append n v)) rest'
+            | _, _ => "bad-op")
+        | "lset", num :: i :: rest => (match num.toNat?, i.toNat?, pVal rest with
+            | some n, some i, some (v, rest') => fin (some (.listSet n i v)) rest'
+            | _, _, _ => "bad-op")
+        | "trunc", num :: k :: rest => (match num.toNat?, k.toNat? with
+            | some n, some k => fin (some (.truncate n k)) rest
+            | _, _ => "bad-op")
+        | "mput", num :: rest => (match num.toNat?, pVal rest with
+            | some n, some (k, rest') => (match pVal rest' with
+              | some (v, rest'') => fin (some (.mapPut n k v)) rest''
+              | none => "bad-op")
+            | _, _ => "bad-op")
+        | "mdel", num :: rest => (match num.toNat?, pVal rest with
+            | some n, some (k, rest') => fin (some (.mapDel n k)) rest'
+            | _, _ => "bad-op")
+        | "setunk", h :: rest => fin ((bytesOfHex h).map .setUnknown) rest
+        | "reset", rest => fin (some .reset) rest
+        | _, _ => "bad-op"
+      (S, r)
+  | "which" :: mi :: o :: ts => match mi.toNat?, o.toNat?, pMsg ts with
+    | some mi, some o, some (m, []) => (S, match whichOneof (S.msg mi) m o with | some n => toString n | none => "-")
+    | _, _, _ => (S, "bad-op")
   | "merge" :: mi :: ts =>
     let (a, b) := splitBar ts
     match mi.toNat?, pMsg a, pMsg b with
